@@ -93,6 +93,9 @@ class Impl:
 
 
 def new_uuid(rng):
+    if rng.random() < 0.01:
+        return rng.choice(["00000000-0000-0000-0000-000000000000", "ffffffff-ffff-ffff-ffff-ffffffffffff",
+                           "00000000-0000-0000-0000-000000000001"])
     h = "%032x" % rng.getrandbits(128)
     return "%s-%s-%s-%s-%s" % (h[:8], h[8:12], h[12:16], h[16:20], h[20:])
 
@@ -130,7 +133,7 @@ class World:
         return b
 
     def restricted(self, d):
-        return self.markers.get(d) == "R"
+        return (self.markers.get(d) or "").startswith("R")
 
     def env_line(self):
         ms = lst(sorted(self.markers.items()), lambda kv: enc(kv[0]) + "=" + kv[1])
@@ -179,6 +182,9 @@ class World:
             quotes = quotes + [rng.choice(conv)]            # a convertible denomination also accepted as a quote
         for d in ["base"] + conv + quotes + ["zz"]:
             m = rng.choice(["R", "U", None, None])
+            if m and rng.random() < 0.15:
+                # same marker type, other fields (required attributes, life-cycle status): the contract looks at the type only
+                m = rng.choice(["Ra", "Rp", "Rc", "Rd"] if m == "R" else ["Ua", "Ud"])
             if m:
                 self.markers[d] = m
         execs = rng.sample(self.accounts, rng.randint(1, 2))
@@ -252,7 +258,11 @@ class World:
             else:
                 f["inc"] = 10 ** p * rng.choice([1, 7]) + rng.choice([0, 1])
             self.send(inst_line(f))
-        b = self.send(inst_line(good))
+        line = inst_line(good)
+        if rng.random() < 0.05:
+            line = "INSTF %s %s" % (coins([(rng.randint(1, 100), rng.choice(["base", "qa", "nhash"]))] if rng.random() < 0.8 else
+                                          [(0, "qa")]), line[len("INST "):])
+        b = self.send(line)
         return b.ok
 
     # ------------------------------------------------------------------ request builders (valid by intent)
@@ -419,6 +429,8 @@ class World:
             size = c.increment * rng.randint(1, k)
         elif r < 0.85:
             size = rem
+        elif r < 0.89:
+            size = max(1, rem - 1)                    # leaves exactly one unit
         elif r < 0.93:
             size = rng.randint(1, rem + 1)
         else:
@@ -543,7 +555,7 @@ class World:
                 choices.append(f)
         f = rng.choice(choices)
         if f == "sender":
-            pool = self.accounts + c.executors + c.approvers + ["mallory"]
+            pool = self.accounts + c.executors + c.approvers + ["mallory", "cosmos2contract"]
             for fi in (c.ask_fee, c.bid_fee):
                 if fi:
                     pool.append(fi[0])
@@ -570,6 +582,8 @@ class World:
                 fu = []
             elif m == 4 and fu:
                 fu = [fu[0], fu[0]]
+            elif m == 5 and rng.random() < 0.5:
+                fu = fu + [(0, rng.choice(c.quotes + [c.base]))] if fu and rng.random() < 0.5 else [(0, rng.choice(c.quotes + [c.base]))]
             else:
                 fu = [(rng.randint(1, 1000), rng.choice(c.quotes + [c.base]))] + fu
             r["funds"] = [x for x in fu if x[0] >= 0]
@@ -622,7 +636,7 @@ class World:
         kind = rng.choices([k for k, _ in w], [x for _, x in w])[0]
         if kind == "env":
             d = rng.choice(list(self.markers.keys()) + ["base", "qa", "cva"])
-            m = rng.choice(["R", "U", None])
+            m = rng.choice(["R", "U", None, "Ra", "Rc", "Rp", "Ua"])
             if m:
                 self.markers[d] = m
             else:
